@@ -22,7 +22,8 @@ class PandasEngineDtype(Contract):
     target = f"{MOD}:Engine.dtype"
     raises = (TypeError,)
     check_frame = False
-    split = {"kind": ["registered", "geopandas", "pyarrow", "extension_class", "other"]}
+    # bare_pyarrow: a pyarrow.DataType instance - it compares and hashes equal to its printed NAME, so it must not be looked up as it is
+    split = {"kind": ["registered", "geopandas", "pyarrow", "extension_class", "other", "bare_pyarrow", "bare_pyarrow_unregistered"]}
 
     def setup(self, I):
         import pandas as pd
@@ -31,11 +32,18 @@ class PandasEngineDtype(Contract):
 
         kind = self.fixed.get("kind", "registered")
 
+        def wrap(I_, t, *a, **k):
+            v = OpaqueVal("pd.ArrowDtype(value)")
+            cur().ghost["wrapped"] = (t, v)
+            return v
+
+        I.models[id(pd.ArrowDtype)] = wrap
+
         def base(I_, cls, data_type):
             p = cur()
             n = len(p.ghost.setdefault("registry_asked", []))
             p.ghost["registry_asked"].append(data_type)
-            known = (kind == "registered") if n == 0 else p.choose([("known", None), ("unknown", None)], "registry(second)") == 0
+            known = (kind in ("registered", "bare_pyarrow")) if n == 0 else p.choose([("known", None), ("unknown", None)], "registry(second)") == 0
             if not known:
                 I_.raise_py(TypeError, "not understood")
             r = OpaqueVal(f"registered#{n}")
@@ -45,7 +53,8 @@ class PandasEngineDtype(Contract):
         f = ENG.Engine.__dict__["dtype"]
         I.models[id(getattr(f, "__func__", f))] = base
         I.models[id(PE.is_geopandas_dtype)] = lambda I_, x: kind == "geopandas"
-        I.models[id(PE.is_pyarrow_dtype)] = lambda I_, x: kind == "pyarrow" and x is cur().ghost.get("value")
+        I.models[id(PE.is_pyarrow_dtype)] = lambda I_, x: (kind == "pyarrow" and x is cur().ghost.get("value")) or (
+            kind.startswith("bare_pyarrow") and cur().ghost.get("wrapped") is not None and x is cur().ghost["wrapped"][1])
         I.models[id(PE.is_extension_dtype)] = lambda I_, x: kind == "extension_class"
 
         def pandas_dtype(I_, x):
@@ -64,7 +73,10 @@ class PandasEngineDtype(Contract):
     def make_args(self):
         from pandera.engines import pandas_engine as PE
 
+        import pyarrow
+
         v = OpaqueVal("data_type")
+        v._isinst[(pyarrow.DataType,)] = self.fixed.get("kind", "registered").startswith("bare_pyarrow")
         cur().ghost["value"] = v
         return {"cls": PE.Engine, "data_type": v}
 
@@ -74,9 +86,14 @@ class PandasEngineDtype(Contract):
     def ensures(self, result, old, cls, data_type):
         g = cur().ghost
         asked, answers = g.get("registry_asked", []), g.get("registry_answers", [])
-        out = {"the_registry_is_asked_about_the_value_first": bool(asked) and asked[0] is data_type,
+        bare = (self.fixed.get("kind") or "").startswith("bare_pyarrow")
+        w = g.get("wrapped")
+        first = (w[1] if (bare and w is not None and w[0] is data_type) else None) if bare else data_type
+        out = {"the_registry_is_asked_about_the_value_first": bool(asked) and asked[0] is first,
                "the_result_is_an_answer_of_the_registry": any(result is r for r in answers)}
-        if self.fixed.get("kind") == "registered":
+        if bare:
+            out["a_bare_pyarrow_type_is_never_looked_up_as_it_is"] = all(a is not data_type for a in asked)
+        if self.fixed.get("kind") in ("registered", "bare_pyarrow"):
             out["resolved_by_the_registry_first"] = result is answers[0] and not g.get("pandas_asked")
         return out
 
